@@ -1,3 +1,621 @@
+/* unit ram - ramalhete_queue (C04, C07).  Contracts, stubs, ghost state and harnesses only;
+ * every function body under contract comes from lowered.h (extracted from /repo on each run). */
+#include <stdint.h>
+#include <stddef.h>
+static void mon_load(void* addr, uint64_t v, int o);
+static void mon_store(void* addr, uint64_t v, int o);
+static void mon_rmw(void* addr, uint64_t oldv, uint64_t newv, int o);
+static void mon_cas(void* addr, uint64_t e, uint64_t d, _Bool ok, int o);
+#define XV_ON_LOAD(addr, val, order) mon_load((void*)(addr), (uint64_t)(val), (order))
+#define XV_ON_STORE(addr, val, order) mon_store((void*)(addr), (uint64_t)(val), (order))
+#define XV_ON_RMW(addr, oldv, newv, order) mon_rmw((void*)(addr), (uint64_t)(oldv), (uint64_t)(newv), (order))
+#define XV_ON_CAS(addr, e, d, ok, order) mon_cas((void*)(addr), (uint64_t)(e), (uint64_t)(d), (ok), (order))
 #include "xv.h"
-#define XV_HAVOC_PUSH t idx value expected new_node next raw_val entries self push_idx _tail GDEREF
-#define XV_HAVOC_POP h idx value expected next cnt pop_idx push_idx entries self _head GDEREF
+int xv_threw; uint64_t xv_clock, xv_rmw_old; _Bool xv_cas_ok;
+
+/* ---- compile-time shapes ---- */
+#ifndef XV_E
+#define XV_E 4            /* entries_per_node */
+#endif
+#ifndef XV_R
+#define XV_R 1            /* pop_retries */
+#endif
+#define entries_per_node XV_E
+#define pop_retries XV_R
+#define step_size XV_STEP      /* extracted from the header */
+#define max_idx XV_MAXIDX      /* extracted from the header: step_size * entries_per_node */
+#define XV_EXC_std__invalid_argument 1
+#define XV_EXC_bad_alloc 2
+#define XV_MIN(a, b) ((a) < (b) ? (a) : (b))
+#define XV_BACKOFF() ((void)0)
+
+/* ---- types: every pointer-like thing is a word ---- */
+typedef uintptr_t marked_ptr, guard_ptr, raw_value_type, value_type, marked_value;
+typedef struct { _Bool has; uintptr_t v; } optval;
+#define XV_NULLOPT ((optval){0, 0})
+#define OPT_has(o) ((o).has)
+#define OPT_value(o) ((o).v)
+/* marked_value = marked_ptr<.,1>: mark in bit 63 (contract of marked_ptr, unit mp) */
+#define MARK63 ((uintptr_t)1 << 63)
+#define MV_make(p, m) ((uintptr_t)(p) | ((uintptr_t)(m) << 63))
+#define MV_get(v) ((uintptr_t)(v) & ~MARK63)
+#define INVALID MARK63
+#define IS_VALUE(w) ((w) != 0 && ((w) & MARK63) == 0)
+#define IS_ENTRY_WORD(w) ((w) == 0 || (w) == INVALID || IS_VALUE(w))
+
+struct entry { marked_value value; };
+struct node {
+  unsigned pop_idx; struct entry entries[XV_E]; unsigned push_idx; marked_ptr next;
+  /* ghost */ _Bool g_live; unsigned g_retired, g_deleted;
+};
+struct ramq { marked_ptr _head, _tail; };
+#define NN 4
+struct node pool[NN];
+#define NPTR(i) ((uintptr_t)((i) + 1) << 6)
+
+/* ---- ghost state ---- */
+unsigned g_released, g_get_count, g_del_total, g_alloc_count, g_delete_count, g_fresh, g_trk_del, g_valdel;
+uintptr_t g_get_val, g_trk_val, g_last_alloc;
+void* g_last_load_addr; void* g_trk_addr;
+_Bool g_alloc_may_fail, g_dtor_stub, g_del_unattributed;
+
+/* ---- guard_ptr contract stubs ---- */
+uintptr_t it_guard; _Bool it_acquired; uint64_t it_acq_clock;
+#define G_acquire(g, cell, order) ((g) = A_LOAD(cell, order), it_guard = (g), it_acquired = 1, it_acq_clock = xv_clock)
+unsigned it_reclaims; uintptr_t it_reclaimed;
+#define G_reclaim(g) (g_reclaim(g), (g) = 0)
+
+/* ---- pointer_queue_traits contract stubs (unit pqt) ---- */
+#define TR_get_raw(v) (v)
+#define TR_release(v) (g_released++, (v) = 0)          /* unique_ptr::release(): the argument object no longer owns */
+
+/* ---- monitors ---- */
+struct ramq* mon_q;
+/* per-iteration event records (reset at the loop head by XV_HAVOC_*) */
+unsigned it_ticket; _Bool it_ticket_drawn; uintptr_t it_ticket_node;
+uintptr_t it_next_val; _Bool it_next_loaded;
+_Bool it_link_tried, it_link_ok; uintptr_t it_link_desired;
+_Bool it_entry_cas, it_entry_cas_ok, it_entry_xchg; uintptr_t it_entry_seen; void* it_entry_addr;
+unsigned it_head_cas, it_tail_cas; _Bool it_head_cas_ok;
+uintptr_t g_raw;          /* the value being pushed (INT runs) */
+#define IT_RESET it_acquired = 0; it_ticket_drawn = 0; it_next_loaded = 0; it_link_tried = 0; it_link_ok = 0; it_entry_cas = 0; \
+  it_entry_cas_ok = 0; it_entry_xchg = 0; it_entry_seen = 0; it_entry_addr = 0; it_head_cas = 0; it_tail_cas = 0; it_head_cas_ok = 0; it_reclaims = 0
+
+
+/* ---- prototypes of everything the lowered text calls (definitions follow the include: they use the extracted constants) ---- */
+static struct node* node_at(uintptr_t w);
+static void g_reclaim(uintptr_t g);
+static optval TR_get(uintptr_t raw);
+static void TR_delete_value(uintptr_t raw);
+static marked_ptr XV_NEW_NODE(raw_value_type item);
+static void XV_DELETE_NODE(marked_ptr w);
+static void havoc_shared(void);
+static optval stub_pop(struct ramq* self);
+static _Bool is_nptr(uintptr_t w);
+static unsigned nidx(uintptr_t w);
+#define XV_POP(self) stub_pop(self)
+#define GDEREF(g) node_at(g)
+#define XV_INIT_pop_idx(self, v) ((self)->pop_idx = (v))
+#define XV_INIT_push_idx(self, v) ((self)->push_idx = (v))
+#define XV_INIT_next(self, v) ((self)->next = (v))
+#ifdef XV_INT
+void xv_env(void);
+#endif
+
+/* ---- loop cuts (INT runs): one arbitrary iteration from an arbitrary typed state ---- */
+static void havoc_shared(void);
+#define XV_INV_PUSH (g_alloc_count == g_delete_count && g_valdel == 0 && g_del_total == 0 && (t == 0 || (is_nptr(t) && pool[nidx(t) % NN].g_live)))
+#define XV_HAVOC_PUSH t = nondet_uptr(); value = nondet_bool() ? value : 0; IT_RESET; havoc_shared() \
+  /* writes: idx expected next new_node (declared inside); shared cells via GDEREF / self: _tail next push_idx entries */
+#define XV_INV_POP (h == 0 || (is_nptr(h) && pool[nidx(h) % NN].g_live))
+#define XV_HAVOC_POP h = nondet_uptr(); IT_RESET; havoc_shared() \
+  /* writes: idx value cnt expected next pop_idx push_idx (declared inside); shared cells via GDEREF / self: _head pop_idx entries */
+
+#include "lowered.h"
+
+/* ---- node pointers ---- */
+static _Bool is_nptr(uintptr_t w) { return w != 0 && (w & 63) == 0 && (w >> 6) <= NN; }
+static unsigned nidx(uintptr_t w) { return (unsigned)(w >> 6) - 1; }
+static struct node* node_at(uintptr_t w) {
+  _Bool ok = is_nptr(w) && pool[nidx(w) % NN].g_live;
+  XV_OBL("ram.node.live_deref", ok);
+  XV_ASSUME(ok);
+  return &pool[nidx(w)];
+}
+static void g_reclaim(uintptr_t g) { node_at(g)->g_retired++; it_reclaims++; it_reclaimed = g; }
+
+static optval TR_get(uintptr_t raw) { g_get_count++; g_get_val = raw; return (optval){1, raw}; }
+static void TR_delete_value(uintptr_t raw) {
+  if (raw == 0) return;                                 /* unique_ptr<T>{nullptr}: nothing destroyed */
+  g_del_total++;
+  if (raw == g_trk_val) g_valdel++;
+  /* attribute the destruction to the entry the value was just read from */
+  if (g_last_load_addr == 0 || MV_get(*(marked_value*)g_last_load_addr) != raw) g_del_unattributed = 1;
+  if (g_last_load_addr == g_trk_addr) g_trk_del++;
+}
+
+/* ---- new / delete of nodes: pool allocation running the REAL lowered constructor / destructor ---- */
+static void havoc_words(struct node* n) {
+  n->pop_idx = nondet_uint(); n->push_idx = nondet_uint(); n->next = nondet_uptr();
+  for (unsigned s = 0; s < XV_E; s++) n->entries[s].value = nondet_uptr();
+}
+static marked_ptr XV_NEW_NODE(raw_value_type item) {
+  if (g_alloc_may_fail && nondet_bool()) { xv_threw = XV_EXC_bad_alloc; return 0; }
+  XV_MODEL_ASSERT("pool large enough", g_fresh < NN && !pool[g_fresh % NN].g_live);
+  XV_ASSUME(g_fresh < NN);
+  unsigned i = g_fresh++;
+  havoc_words(&pool[i]);                              /* uninitialised storage */
+  pool[i].g_live = 1; pool[i].g_retired = 0; pool[i].g_deleted = 0;
+  ram_node_ctor(&pool[i], item);
+  g_alloc_count++; g_last_alloc = NPTR(i);
+  return NPTR(i);
+}
+static void XV_DELETE_NODE(marked_ptr w) {
+  struct node* n = node_at(w);
+  if (!g_dtor_stub) ram_node_dtor(n);
+  n->g_live = 0; n->g_deleted++; g_delete_count++;
+}
+
+static _Bool in_pool(void* a) { return (char*)a >= (char*)&pool[0] && (char*)a < (char*)&pool[NN]; }
+#ifdef XV_INT
+static void mon_load(void* addr, uint64_t v, int o) {
+  g_last_load_addr = addr;
+  if (!it_acquired) return;
+  struct node* g = &pool[nidx(it_guard) % NN];
+  if (addr == (void*)&g->next) { it_next_val = v; it_next_loaded = 1; }
+  if (it_ticket_drawn && it_ticket < XV_E && addr == (void*)&g->entries[(it_ticket * XV_STEP) % XV_E].value) { it_entry_seen = v; it_entry_addr = addr; }
+}
+static void mon_store(void* addr, uint64_t v, int o) { }
+static void mon_rmw(void* addr, uint64_t oldv, uint64_t newv, int o) {
+  struct node* g = &pool[nidx(it_guard) % NN];
+  if (addr == (void*)&g->push_idx || addr == (void*)&g->pop_idx) {
+    XV_OBL("ram.int.ticket", it_acquired && !it_ticket_drawn && newv == oldv + XV_STEP);
+    it_ticket_drawn = 1; it_ticket = (unsigned)(oldv / XV_STEP); it_ticket_node = it_guard;
+  } else {
+    /* the only other RMW is pop's exchange on the entry of its ticket */
+    _Bool mine = it_acquired && it_ticket_drawn && it_ticket < XV_E && addr == (void*)&g->entries[(it_ticket * XV_STEP) % XV_E].value;
+    XV_OBL("ram.pop.commit", mine && newv == INVALID);
+    it_entry_xchg = 1; it_entry_seen = oldv; it_entry_addr = addr;
+  }
+}
+static void mon_cas(void* addr, uint64_t e, uint64_t d, _Bool ok, int o) {
+  struct node* g = &pool[nidx(it_guard) % NN];
+  if (addr == (void*)&mon_q->_tail) {
+    /* swing the tail: from the node the guard protects to the node linked behind it */
+    it_tail_cas++;
+    XV_OBL("ram.push.commit", it_acquired && e == it_guard && d != 0 && XV_IS_RELEASE(o)
+           && ((it_link_ok && d == it_link_desired) || (!it_link_tried && it_next_loaded && d == it_next_val)));
+  } else if (addr == (void*)&mon_q->_head) {
+    it_head_cas++; it_head_cas_ok = ok;
+    XV_OBL("ram.pop.commit", it_acquired && e == it_guard && it_next_loaded && d == it_next_val && d != 0 && XV_IS_RELEASE(o)
+           && it_ticket_drawn && it_ticket >= XV_E);
+  } else if (in_pool(addr) && it_acquired && addr == (void*)&g->next) {
+    /* link a new node behind the protected tail node */
+    XV_OBL("ram.push.commit", !it_link_tried && e == 0 && d == g_last_alloc && g_alloc_count == g_delete_count + 1 && XV_IS_RELEASE(o)
+           && it_ticket_drawn && it_ticket >= XV_E
+           && pool[nidx(d) % NN].entries[0].value == g_raw && pool[nidx(d) % NN].next == 0);
+    it_link_tried = 1; it_link_ok = ok; it_link_desired = d;
+  } else {
+    /* store the value into the entry of the ticket just drawn */
+    _Bool mine = it_acquired && it_ticket_drawn && it_ticket < XV_E && addr == (void*)&g->entries[(it_ticket * XV_STEP) % XV_E].value;
+    XV_OBL("ram.push.commit", mine && !it_entry_cas && e == 0 && d == g_raw && XV_IS_RELEASE(o));
+    it_entry_cas = 1; it_entry_cas_ok = ok;
+  }
+}
+#else
+static void mon_load(void* addr, uint64_t v, int o) { g_last_load_addr = addr; }
+static void mon_store(void* addr, uint64_t v, int o) { }
+static void mon_rmw(void* addr, uint64_t oldv, uint64_t newv, int o) { }
+static void mon_cas(void* addr, uint64_t e, uint64_t d, _Bool ok, int o) { }
+#endif
+/* ---- specification-level definitions ---- */
+static unsigned spec_slot(unsigned k) { return (k * XV_STEP) % XV_E; }      /* ticket -> entry; injective by ram.idx.injective */
+#define MAXT ((unsigned)1 << 27)                                              /* assumption: ticket counters below 2^27 (no 32-bit wrap) */
+static unsigned tickets(unsigned idx) { return idx / XV_STEP; }
+/* representation invariant of one node (what concurrent pushes/pops can leave behind at any instant) */
+static _Bool node_inv(const struct node* n) {
+  if (n->push_idx % XV_STEP != 0 || n->pop_idx % XV_STEP != 0) return 0;
+  if (tickets(n->push_idx) >= MAXT || tickets(n->pop_idx) >= MAXT) return 0;
+  if (n->next != 0 && !(is_nptr(n->next) && tickets(n->push_idx) >= XV_E)) return 0;      /* a successor is appended only to a full node */
+  for (unsigned k = 0; k < XV_E; k++) {
+    marked_value w = n->entries[spec_slot(k)].value;
+    if (!IS_ENTRY_WORD(w)) return 0;
+    if (k >= tickets(n->push_idx) && IS_VALUE(w)) return 0;      /* values only at tickets already handed to a producer */
+    if (w == INVALID && k >= tickets(n->pop_idx)) return 0;      /* invalidated only by the consumer holding that ticket */
+  }
+  return 1;
+}
+static void havoc_node(struct node* n) {
+  havoc_words(n); n->g_live = 1; n->g_retired = 0; n->g_deleted = 0;
+  XV_ASSUME(node_inv(n));
+}
+/* first ticket >= the push ticket whose entry is still free (XV_E if none) */
+static unsigned first_free(const struct node* n) {
+  for (unsigned k = 0; k < XV_E; k++) if (k >= tickets(n->push_idx) && n->entries[spec_slot(k)].value == 0) return k;
+  return XV_E;
+}
+static void reset_ghost(void) {
+  g_released = 0; g_get_count = 0; g_del_total = 0; g_alloc_count = 0; g_delete_count = 0; g_trk_del = 0; g_valdel = 0;
+  g_get_val = nondet_uptr(); g_trk_val = 0; g_last_alloc = 0; g_last_load_addr = 0; g_trk_addr = 0; g_alloc_may_fail = 0; g_dtor_stub = 0;
+  g_del_unattributed = 0; xv_threw = 0; IT_RESET; it_guard = 0;
+}
+
+unsigned in_e, in_pop_t, in_push_t, in_gk;
+
+/* =========================== ram.idx.injective =========================== */
+void h_idx(void) {
+#if !(XV_STATIC_ASSERTS) || !(XV_E > 0)
+  XV_CANARY("idx.config_rejected");      /* this entries_per_node does not compile: nothing to prove */
+#else
+  unsigned ki = nondet_uint(), kj = nondet_uint();
+  XV_ASSUME(ki < XV_E && kj < XV_E);
+  unsigned idx, a_push, b_push, a_pop, b_pop, a_dt, b_dt, i;
+  idx = ki * step_size; XV_PUSH_SLOT_STMT; a_push = idx;
+  idx = kj * step_size; XV_PUSH_SLOT_STMT; b_push = idx;
+  idx = ki * step_size; XV_POP_SLOT_STMT; a_pop = idx;
+  idx = kj * step_size; XV_POP_SLOT_STMT; b_pop = idx;
+  i = ki * step_size; a_dt = XV_DTOR_SLOT_EXPR;
+  i = kj * step_size; b_dt = XV_DTOR_SLOT_EXPR;
+  XV_OBL("ram.idx.injective", a_push < XV_E && a_pop < XV_E && a_dt < XV_E);
+  XV_OBL("ram.idx.injective", a_push == a_pop && a_push == a_dt);            /* producer, consumer and destructor agree on the entry of a ticket */
+  XV_OBL("ram.idx.injective", a_push == spec_slot(ki));                       /* and it is the map the other harnesses use as specification */
+  if (ki != kj) {
+    XV_OBL("ram.idx.injective", a_push != b_push && a_pop != b_pop && a_dt != b_dt);
+#if XV_E > 1
+    XV_CANARY("idx.distinct");
+#endif
+  }
+  XV_OBL("ram.idx.injective", ki * step_size < max_idx && max_idx / step_size == XV_E);  /* max_idx separates the tickets of one node from the overflow tickets */
+  XV_CANARY("idx.reached");
+#endif
+}
+
+/* =========================== node constructor =========================== */
+void h_node_ctor(void) {
+  reset_ghost();
+  struct node n; havoc_words(&n);
+  raw_value_type item = nondet_uptr(); XV_ASSUME((item & MARK63) == 0);
+  ram_node_ctor(&n, item);
+  XV_OBL("ram.node_ctor.prefilled", n.entries[0].value == item && n.pop_idx == 0 && n.push_idx == step_size && n.next == 0);
+  for (unsigned s = 1; s < XV_E; s++) XV_OBL("ram.node_ctor.prefilled", n.entries[s].value == 0);
+  XV_OBL("ram.node_ctor.prefilled", spec_slot(0) == 0);      /* the pre-filled entry is the entry of ticket 0 */
+  if (item != 0) XV_OBL("ram.inv.preserved", node_inv(&n));
+  XV_CANARY("node_ctor.reached");
+}
+
+/* =========================== node destructor (C07) =========================== */
+#ifndef XV_OV
+#define XV_OV 3          /* how far beyond max_idx the counters may be (number of threads that hit the full/drained node) */
+#endif
+void h_node_dtor(void) {
+  reset_ghost();
+  in_e = XV_E;
+  struct node* n = &pool[0]; havoc_node(n);
+  in_pop_t = tickets(n->pop_idx); in_push_t = tickets(n->push_idx);
+#ifdef XV_DTOR_BOUNDED
+  XV_ASSUME(in_pop_t <= XV_E + XV_OV && in_push_t <= XV_E + XV_OV);
+#endif
+  in_gk = nondet_uint(); XV_ASSUME(in_gk < XV_E);
+  unsigned s = spec_slot(in_gk);
+  marked_value w = n->entries[s].value;
+  g_trk_addr = &n->entries[s].value;
+  /* the queue owns the value of ticket gk iff the ticket was handed to a producer, not yet to a consumer, and holds a value */
+  _Bool owned = in_gk >= in_pop_t && in_gk < in_push_t && IS_VALUE(w);
+  ram_node_dtor(n);
+  XV_OBL("ram.node_dtor.owned_only", g_trk_del == (owned ? 1u : 0u));
+  XV_OBL("ram.node_dtor.owned_only", !g_del_unattributed);
+  XV_OBL("ram.node_dtor.owned_only", n->entries[s].value == w && n->pop_idx == in_pop_t * XV_STEP && n->push_idx == in_push_t * XV_STEP);
+  if (owned) XV_CANARY("node_dtor.owned");
+  if (!owned && IS_VALUE(w) && in_gk < in_pop_t) XV_CANARY("node_dtor.consumed");
+  if (in_pop_t > XV_E && in_push_t > in_pop_t) XV_CANARY("node_dtor.both_beyond_max");
+  if (in_pop_t < XV_E && in_push_t > XV_E + 1) XV_CANARY("node_dtor.push_beyond_max");
+}
+
+/* =========================== queue constructor / destructor =========================== */
+void h_ctor(void) {
+  reset_ghost();
+  for (unsigned i = 0; i < NN; i++) { havoc_words(&pool[i]); pool[i].g_live = 0; }
+  g_fresh = 0;
+  struct ramq q; q._head = nondet_uptr(); q._tail = nondet_uptr();
+  ram_ctor(&q);
+  XV_OBL("ram.ctor.empty", g_alloc_count == 1 && q._head == NPTR(0) && q._tail == NPTR(0) && pool[0].g_live);
+  XV_OBL("ram.ctor.empty", pool[0].pop_idx == 0 && pool[0].push_idx == 0 && pool[0].next == 0);
+  for (unsigned s = 0; s < XV_E; s++) XV_OBL("ram.ctor.empty", pool[0].entries[s].value == 0);
+  XV_OBL("ram.inv.preserved", node_inv(&pool[0]));
+  XV_CANARY("ctor.reached");
+}
+
+unsigned in_len;
+void h_dtor(void) {
+  reset_ghost(); g_dtor_stub = 1;          /* ~node has its own contract (h_node_dtor); here: which nodes are deleted, and how often */
+  for (unsigned i = 0; i < NN; i++) { havoc_node(&pool[i]); pool[i].next = 0; }
+  in_len = nondet_uint(); XV_ASSUME(in_len >= 1 && in_len <= 3);
+  for (unsigned i = 0; i + 1 < in_len; i++) pool[i].next = NPTR(i + 1);
+  /* pool[in_len..] : nodes that are not in the list (e.g. retired, still waiting for reclamation) */
+  struct ramq q; q._head = NPTR(0); q._tail = nondet_bool() ? NPTR(in_len - 1) : NPTR(in_len >= 2 ? in_len - 2 : 0);
+  ram_dtor(&q);
+  for (unsigned i = 0; i < NN; i++) {
+    XV_OBL("ram.dtor.each_node_once", pool[i].g_deleted == (i < in_len ? 1u : 0u));
+    XV_OBL("ram.dtor.each_node_once", pool[i].g_retired == 0);
+  }
+  if (in_len == 3) XV_CANARY("dtor.three_nodes");
+  if (in_len == 1) XV_CANARY("dtor.one_node");
+}
+
+/* =========================== push, sequential (C04 + C07) =========================== */
+uintptr_t in_val;
+static void setup_push_state(struct ramq* q) {
+  /* pool[0] = the node _tail points to; pool[1] = its successor when the tail lags by one, otherwise an unrelated live node;
+   * pool[2], pool[3] = free storage */
+  havoc_node(&pool[0]); havoc_node(&pool[1]);
+  XV_ASSUME(pool[0].next == 0 || pool[0].next == NPTR(1));
+  XV_ASSUME(pool[1].next == 0);
+  for (unsigned i = 2; i < NN; i++) { havoc_words(&pool[i]); pool[i].g_live = 0; pool[i].g_retired = 0; pool[i].g_deleted = 0; }
+  g_fresh = 2;
+  q->_tail = NPTR(0); q->_head = nondet_uptr();
+  mon_q = q;
+}
+static void check_node_unchanged(const char* unused, const struct node* a, const struct node* b, int except_slot, _Bool push_idx_too) {
+  for (unsigned s = 0; s < XV_E; s++) if ((int)s != except_slot) XV_OBL("ram.push.frame", a->entries[s].value == b->entries[s].value);
+  XV_OBL("ram.push.frame", a->pop_idx == b->pop_idx && a->g_retired == 0 && a->g_deleted == 0 && a->g_live);
+  if (push_idx_too) XV_OBL("ram.push.frame", a->push_idx == b->push_idx && a->next == b->next);
+}
+void h_push(void) {
+  reset_ghost();
+  struct ramq q; setup_push_state(&q);
+  struct node T0 = pool[0], N0 = pool[1]; uintptr_t head0 = q._head;
+  in_val = nondet_uptr(); XV_ASSUME((in_val & MARK63) == 0);
+  g_trk_val = in_val;
+  /* an arbitrary value already in the queue: (gn, gk) */
+  unsigned gn = nondet_uint(), gk = nondet_uint(); XV_ASSUME(gn < 2 && gk < XV_E);
+  _Bool g_in = (gn == 0 || T0.next == NPTR(1)) && gk >= tickets(pool[gn].pop_idx) && IS_VALUE(pool[gn].entries[spec_slot(gk)].value);
+  ram_push(&q, in_val);
+  if (in_val == 0) {
+    XV_OBL("ram.push.null_rejected", xv_threw == XV_EXC_std__invalid_argument && g_released == 0 && g_alloc_count == 0);
+    check_node_unchanged("", &pool[0], &T0, -1, 1); check_node_unchanged("", &pool[1], &N0, -1, 1);
+    XV_OBL("ram.push.frame", q._tail == NPTR(0) && q._head == head0);
+    XV_CANARY("push.null");
+    return;
+  }
+  XV_OBL("ram.push.accepts_once", xv_threw == 0);
+  unsigned kT = first_free(&T0), kN = first_free(&N0);
+  unsigned pn, pk; _Bool fresh = 0;           /* where the value must be now */
+  unsigned ptT = tickets(T0.push_idx), ptN = tickets(N0.push_idx);
+  if (kT < XV_E) {                             /* A: a free ticket in the tail node */
+    pn = 0; pk = kT;
+    XV_OBL("ram.push.slot", pool[0].entries[spec_slot(kT)].value == in_val && pool[0].push_idx == (kT + 1) * XV_STEP);
+    XV_OBL("ram.push.slot", pool[0].next == T0.next && q._tail == NPTR(0) && g_alloc_count == 0);
+    check_node_unchanged("", &pool[0], &T0, (int)spec_slot(kT), 0); check_node_unchanged("", &pool[1], &N0, -1, 1);
+    if (kT > ptT) XV_CANARY("push.slot_after_invalidated"); else XV_CANARY("push.slot");
+  } else if (T0.next == 0) {                   /* B: tail node full (or every remaining ticket invalidated), no successor: append */
+    pn = 2; pk = 0; fresh = 1;
+    XV_OBL("ram.push.new_node", pool[0].next == NPTR(2) && q._tail == NPTR(2));
+    XV_OBL("ram.push.new_node", pool[0].push_idx == ((ptT > XV_E ? ptT : XV_E) + 1) * XV_STEP);
+    check_node_unchanged("", &pool[0], &T0, -1, 0); check_node_unchanged("", &pool[1], &N0, -1, 1);
+    XV_CANARY("push.new_node");
+  } else {                                     /* C/D: the tail lags by one: help it forward, then push there */
+    XV_OBL("ram.push.new_node", pool[0].push_idx == (ptT + 1) * XV_STEP && pool[0].next == NPTR(1));
+    check_node_unchanged("", &pool[0], &T0, -1, 0);
+    if (kN < XV_E) {
+      pn = 1; pk = kN;
+      XV_OBL("ram.push.new_node", q._tail == NPTR(1) && g_alloc_count == 0 && pool[1].next == 0);
+      XV_OBL("ram.push.slot", pool[1].entries[spec_slot(kN)].value == in_val && pool[1].push_idx == (kN + 1) * XV_STEP);
+      check_node_unchanged("", &pool[1], &N0, (int)spec_slot(kN), 0);
+      XV_CANARY("push.helped_tail");
+    } else {
+      pn = 2; pk = 0; fresh = 1;
+      XV_OBL("ram.push.new_node", pool[1].next == NPTR(2) && q._tail == NPTR(2));
+      XV_OBL("ram.push.new_node", pool[1].push_idx == ((ptN > XV_E ? ptN : XV_E) + 1) * XV_STEP);
+      check_node_unchanged("", &pool[1], &N0, -1, 0);
+      XV_CANARY("push.helped_tail_new_node");
+    }
+  }
+  if (fresh) {
+    XV_OBL("ram.push.new_node", g_alloc_count == 1 && pool[2].g_live && pool[2].entries[0].value == in_val
+           && pool[2].pop_idx == 0 && pool[2].push_idx == XV_STEP && pool[2].next == 0 && pool[2].g_retired == 0 && pool[2].g_deleted == 0);
+    for (unsigned s = 1; s < XV_E; s++) XV_OBL("ram.push.new_node", pool[2].entries[s].value == 0);
+    XV_OBL("ram.inv.preserved", node_inv(&pool[2]));
+  } else {
+    XV_OBL("ram.push.frame", !pool[2].g_live);
+  }
+  XV_OBL("ram.push.frame", q._head == head0 && g_delete_count == 0 && !pool[3].g_live && g_get_count == 0);
+  XV_OBL("ram.inv.preserved", node_inv(&pool[0]) && node_inv(&pool[1]) && node_at(q._tail)->next == 0);
+  /* C07: the caller's object gave up ownership exactly once, and the value was not destroyed */
+  XV_OBL("ram.push.accepts_once", g_released == 1 && g_valdel == 0 && g_del_total == 0);
+  /* FIFO: every value that was in the queue is in front of the new one (node order, then ticket order) and untouched */
+  if (g_in) {
+    XV_OBL("ram.push.fifo", gn < pn || (gn == pn && gk < pk));
+    XV_CANARY("push.fifo_witness");
+  }
+}
+
+/* =========================== pop, sequential (C04 + C07) =========================== */
+static void setup_pop_state(struct ramq* q) {
+  /* list pool[0] -> pool[1] -> pool[2] (a prefix of it), head = pool[0]; pool[3] not live */
+  for (unsigned i = 0; i < 3; i++) havoc_node(&pool[i]);
+  XV_ASSUME(pool[0].next == 0 || pool[0].next == NPTR(1));
+  XV_ASSUME(pool[1].next == 0 || pool[1].next == NPTR(2));
+  XV_ASSUME(pool[2].next == 0);
+  havoc_words(&pool[3]); pool[3].g_live = 0; pool[3].g_retired = 0; pool[3].g_deleted = 0;
+  g_fresh = 3;
+  q->_head = NPTR(0); q->_tail = nondet_uptr();
+  mon_q = q;
+}
+static _Bool listed(const struct node* pre, unsigned i) {      /* node i reachable from pool[0] in the pre-state */
+  return i == 0 || (i == 1 && pre[0].next == NPTR(1)) || (i == 2 && pre[0].next == NPTR(1) && pre[1].next == NPTR(2));
+}
+void h_pop(void) {
+  reset_ghost();
+  struct ramq q; setup_pop_state(&q);
+  struct node pre[3] = { pool[0], pool[1], pool[2] }; uintptr_t tail0 = q._tail;
+  unsigned gn = nondet_uint(), gk = nondet_uint(); XV_ASSUME(gn < 3 && gk < XV_E);
+  marked_value gw = pre[gn].entries[spec_slot(gk)].value;
+  _Bool g_in = listed(pre, gn) && gk >= tickets(pre[gn].pop_idx) && IS_VALUE(gw);     /* (gn, gk) is an element of the abstract queue */
+  optval r = ram_pop(&q);
+  /* the head moves forward along the list; every node left behind is retired exactly once, no other */
+  XV_OBL("ram.pop.next_node", is_nptr(q._head) && nidx(q._head) < 3 && listed(pre, nidx(q._head)));
+  unsigned hp = nidx(q._head) % 3;
+  for (unsigned i = 0; i < 3; i++) {
+    XV_OBL("ram.pop.next_node", pool[i].g_retired == (i < hp ? 1u : 0u) && pool[i].g_deleted == 0 && pool[i].g_live);
+    if (i < hp) XV_OBL("ram.pop.next_node", tickets(pool[i].pop_idx) > XV_E);   /* left only after a ticket beyond the node was drawn */
+    XV_OBL("ram.pop.frame", pool[i].push_idx == pre[i].push_idx && pool[i].next == pre[i].next);
+    XV_OBL("ram.pop.frame", pool[i].pop_idx >= pre[i].pop_idx && (i <= hp || pool[i].pop_idx == pre[i].pop_idx));
+    XV_OBL("ram.inv.preserved", node_inv(&pool[i]));
+  }
+  XV_OBL("ram.pop.frame", q._tail == tail0 && g_alloc_count == 0 && g_delete_count == 0 && !pool[3].g_live && g_released == 0 && g_del_total == 0);
+  unsigned rk = tickets(pool[hp].pop_idx) - 1;
+  /* entries: values are never modified (a consumed value stays where it is); a free entry whose ticket was drawn becomes INVALID */
+  for (unsigned i = 0; i < 3; i++) for (unsigned k = 0; k < XV_E; k++) {
+    marked_value a = pre[i].entries[spec_slot(k)].value, b = pool[i].entries[spec_slot(k)].value;
+    _Bool drawn = i <= hp && k >= tickets(pre[i].pop_idx) && k < tickets(pool[i].pop_idx);
+    if (drawn && a == 0) XV_OBL("ram.pop.invalidate", b == INVALID);
+    else XV_OBL("ram.pop.frame", b == a);
+  }
+  if (r.has) {
+    XV_OBL("ram.pop.slot", tickets(pool[hp].pop_idx) >= 1 && rk < XV_E && rk >= tickets(pre[hp].pop_idx));
+    XV_OBL("ram.pop.slot", IS_VALUE(pre[hp].entries[spec_slot(rk % XV_E)].value) && r.v == pre[hp].entries[spec_slot(rk % XV_E)].value);
+    XV_OBL("ram.pop.hands_over_once", g_get_count == 1 && g_get_val == r.v);
+    if (g_in) {
+      XV_OBL("ram.pop.fifo", !(gn < hp || (gn == hp && gk < rk)));                       /* nothing that was in the queue is in front of the returned value */
+      if (!(gn == hp && gk == rk)) XV_OBL("ram.pop.fifo", gk >= tickets(pool[gn].pop_idx)); /* and everything else is still in the queue */
+      XV_CANARY("pop.fifo_witness");
+    }
+    if (hp > 0) XV_CANARY("pop.value_next_node");
+    if (hp == 2) XV_CANARY("pop.value_third_node");
+    if (rk > tickets(pre[hp].pop_idx)) XV_CANARY("pop.value_after_invalidating");
+    if (hp == 0 && rk == tickets(pre[0].pop_idx)) XV_CANARY("pop.value");
+  } else {
+    XV_OBL("ram.pop.empty", !g_in);                  /* 'empty' only if there was no value in the queue */
+    XV_OBL("ram.pop.hands_over_once", g_get_count == 0);
+    XV_OBL("ram.pop.empty", pool[hp].next == 0);
+    if (hp == 0 && pool[0].pop_idx == pre[0].pop_idx) XV_CANARY("pop.empty_untouched");
+    if (hp > 0) XV_CANARY("pop.empty_after_drained_node");
+    if (pool[hp].pop_idx > pre[hp].pop_idx) XV_CANARY("pop.empty_after_invalidating");
+  }
+}
+
+/* =========================== try_pop =========================== */
+optval stub_pop_result; unsigned stub_pop_calls;
+static optval stub_pop(struct ramq* self) { stub_pop_calls++; return stub_pop_result; }
+void h_try_pop(void) {
+  reset_ghost();
+  struct ramq q; q._head = nondet_uptr(); q._tail = nondet_uptr(); struct ramq q0 = q;
+  stub_pop_result.has = nondet_bool(); stub_pop_result.v = nondet_uptr(); stub_pop_calls = 0;
+  value_type result = nondet_uptr(), result0 = result;
+  _Bool r = ram_try_pop(&q, &result);
+  XV_OBL("ram.try_pop.forwards", stub_pop_calls == 1 && r == stub_pop_result.has && result == (r ? stub_pop_result.v : result0));
+  XV_OBL("ram.try_pop.forwards", q._head == q0._head && q._tail == q0._tail);
+  if (r) XV_CANARY("try_pop.true"); else XV_CANARY("try_pop.false");
+}
+
+/* =========================== INT: one iteration under arbitrary interference =========================== */
+static void havoc_shared(void) {
+  /* every shared cell gets an arbitrary well-typed value; nodes that are private to this thread (allocated, not yet published) are left alone */
+  for (unsigned i = 0; i < NN; i++) {
+    if (!pool[i].g_live) continue;
+    if (g_alloc_count > g_delete_count && NPTR(i) == g_last_alloc && !it_link_ok) continue;
+    pool[i].pop_idx = nondet_uint() * XV_STEP; pool[i].push_idx = nondet_uint() * XV_STEP;
+    XV_ASSUME(tickets(pool[i].pop_idx) < MAXT && tickets(pool[i].push_idx) < MAXT);
+    uintptr_t nx = nondet_uptr(); XV_ASSUME(nx == 0 || (is_nptr(nx) && pool[nidx(nx) % NN].g_live && nidx(nx) != i)); pool[i].next = nx;
+    for (unsigned s = 0; s < XV_E; s++) { marked_value w = nondet_uptr(); XV_ASSUME(IS_ENTRY_WORD(w)); pool[i].entries[s].value = w; }
+  }
+  uintptr_t hd = nondet_uptr(), tl = nondet_uptr();
+  XV_ASSUME(is_nptr(hd) && pool[nidx(hd) % NN].g_live && is_nptr(tl) && pool[nidx(tl) % NN].g_live);
+  XV_ASSUME(!(g_alloc_count > g_delete_count && !it_link_ok && (hd == g_last_alloc || tl == g_last_alloc)));
+  mon_q->_head = hd; mon_q->_tail = tl;
+}
+#ifdef XV_INT
+_Bool env_on; int env_kind; _Bool env_linked;
+void xv_env(void) {
+  if (!env_on) return;
+  if (env_kind == 0) { if (nondet_bool()) havoc_shared(); return; }      /* rely: anything well-typed */
+  /* env_kind 1: one competing producer B: links its node pool[1] behind the full tail node pool[0], later swings the tail */
+  if (!env_linked) {
+    if (nondet_bool() && pool[0].next == 0 && tickets(pool[0].push_idx) >= XV_E) { pool[0].next = NPTR(1); pool[0].push_idx += XV_STEP; env_linked = 1; }
+  } else if (nondet_bool() && mon_q->_tail == NPTR(0)) mon_q->_tail = NPTR(1);
+}
+#endif
+static void setup_int(struct ramq* q) {
+  for (unsigned i = 0; i < 3; i++) { pool[i].g_live = 1; pool[i].g_retired = 0; pool[i].g_deleted = 0; }
+  havoc_words(&pool[3]); pool[3].g_live = 0; pool[3].g_retired = 0; pool[3].g_deleted = 0; g_fresh = 3;
+  mon_q = q; havoc_shared();
+}
+void h_push_int(void) {
+#ifdef XV_INT
+  reset_ghost();
+  struct ramq q; setup_int(&q);
+  g_raw = nondet_uptr(); XV_ASSUME(g_raw != 0 && (g_raw & MARK63) == 0); g_trk_val = g_raw;
+  env_kind = 0; env_on = 1;
+  ram_push_cut(&q, g_raw);
+  env_on = 0;
+  /* push returns only from an iteration in which its own CAS published the value */
+  XV_OBL("ram.push.commit", xv_threw == 0 && ((it_entry_cas && it_entry_cas_ok && !it_link_tried) || (it_link_tried && it_link_ok && !it_entry_cas)));
+  XV_OBL("ram.push.commit", it_link_ok ? (it_tail_cas == 1 && g_alloc_count == g_delete_count + 1) : (it_tail_cas == 0 && g_alloc_count == g_delete_count));
+  XV_OBL("ram.push.accepts_once", g_released >= 1 && g_valdel == 0 && g_del_total == 0);
+  if (it_link_ok) XV_CANARY("push_int.linked"); else XV_CANARY("push_int.stored");
+#endif
+}
+void h_pop_int(void) {
+#ifdef XV_INT
+  reset_ghost();
+  struct ramq q; setup_int(&q);
+  env_kind = 0; env_on = 1;
+  optval r = ram_pop_cut(&q);
+  env_on = 0;
+  if (r.has) {
+    /* the value handed out was read from (or exchanged out of) the entry of the ticket drawn in this iteration */
+    XV_OBL("ram.pop.commit", it_ticket_drawn && it_ticket < XV_E && it_entry_addr != 0 && IS_VALUE(it_entry_seen) && r.v == it_entry_seen);
+    XV_OBL("ram.pop.hands_over_once", g_get_count == 1 && g_get_val == r.v && it_head_cas == 0 && it_reclaims == 0);
+    if (it_entry_xchg) XV_CANARY("pop_int.value_by_exchange"); else XV_CANARY("pop_int.value_by_load");
+  } else {
+    XV_OBL("ram.pop.hands_over_once", g_get_count == 0);
+    XV_CANARY("pop_int.empty");
+  }
+  XV_OBL("ram.pop.commit", g_alloc_count == 0 && g_delete_count == 0 && g_released == 0 && g_del_total == 0);
+#endif
+}
+
+/* =========================== INT: push loses the race for linking its new node (C07 roll-back) =========================== */
+void h_push_rollback(void) {
+#ifdef XV_INT
+  reset_ghost();
+  struct ramq q;
+  /* pool[0]: the tail node, full, no successor yet.  pool[1]: the node producer B is about to link (holds B's value).  pool[2], pool[3]: free */
+  havoc_node(&pool[0]); XV_ASSUME(pool[0].next == 0 && first_free(&pool[0]) == XV_E);
+  havoc_node(&pool[1]); XV_ASSUME(pool[1].next == 0);
+  for (unsigned i = 2; i < NN; i++) { havoc_words(&pool[i]); pool[i].g_live = 0; pool[i].g_retired = 0; pool[i].g_deleted = 0; }
+  g_fresh = 2; q._tail = NPTR(0); q._head = nondet_uptr(); mon_q = &q; uintptr_t head0 = q._head;
+  struct node T0 = pool[0], N0 = pool[1];
+  in_val = nondet_uptr(); XV_ASSUME(in_val != 0 && (in_val & MARK63) == 0); g_trk_val = in_val; g_raw = in_val;
+  env_kind = 1; env_linked = 0; env_on = 1;
+  ram_push(&q, in_val);
+  env_on = 0;
+  XV_OBL("ram.push.rollback", xv_threw == 0 && g_released >= 1);
+  XV_OBL("ram.push.rollback", g_valdel == 0 && g_del_total == 0);                        /* nothing destroyed */
+  /* the value is in exactly one entry of a node of the list */
+  unsigned places = 0;
+  for (unsigned i = 0; i < NN; i++) for (unsigned s = 0; s < XV_E; s++) {
+    _Bool was = (i == 0 && T0.entries[s].value == in_val) || (i == 1 && N0.entries[s].value == in_val);
+    if (pool[i].g_live && pool[i].entries[s].value == in_val && !was) places++;
+  }
+  XV_OBL("ram.push.rollback", places == 1);
+  if (env_linked && g_alloc_count > 0 && pool[2].g_deleted) {
+    /* lost the race: our first node was never published and has been deleted exactly once */
+    XV_OBL("ram.push.rollback", pool[2].g_deleted == 1 && !pool[2].g_live && pool[0].next == NPTR(1) && pool[1].next != NPTR(2) && q._tail != NPTR(2));
+    XV_OBL("ram.push.rollback", g_delete_count == 1);
+    if (g_alloc_count == 2) {
+      XV_OBL("ram.push.rollback", pool[3].g_live && pool[3].entries[0].value == in_val && pool[1].next == NPTR(3) && q._tail == NPTR(3));
+      XV_CANARY("rollback.second_node");
+    } else {
+      XV_OBL("ram.push.rollback", q._tail == NPTR(1) && pool[1].entries[spec_slot(first_free(&N0) % XV_E)].value == in_val);
+      XV_CANARY("rollback.stored_in_winner_node");
+    }
+    XV_CANARY("rollback.lost_race");
+  } else {
+    XV_OBL("ram.push.rollback", g_delete_count == 0);
+    if (env_linked) XV_CANARY("rollback.helped"); else XV_CANARY("rollback.no_race");
+  }
+  for (unsigned s = 0; s < XV_E; s++) XV_OBL("ram.push.rollback", pool[0].entries[s].value == T0.entries[s].value);
+  XV_OBL("ram.push.rollback", q._head == head0 && pool[0].g_live && pool[1].g_live && pool[0].g_retired == 0 && pool[1].g_retired == 0);
+#endif
+}
